@@ -1185,8 +1185,104 @@ def falsy_parent_stream(ctx, res):
         if default_after != default_before:
             res.violate("C03:other-key-file-created", "the default key file was created / changed although the root names a key file", case)
 
+def edge_secrets_and_foreign_lists_stream(ctx, res):
+    """(a) secrets at the edges of the padding: every length 0..48, ending in the byte the padding would add (`\n` at length 6 mod 16,
+    `\t` at 7, `\r` at 3, `\x10` at a full block), made only of blanks (` `, `\t\n`, NBSP + ideographic space) — stored as method +
+    ciphertext (never null, never plaintext), and read back exactly, through a document in json and yaml, for direct fields, nested
+    sections and list items; (b) a list of sub-configurations holding secrets ASSIGNED from another live configuration with its own
+    key file (`prod.peers = staging.peers`, also `+=` / extend): what prod saves opens with prod's key file only, and staging's
+    items still belong to staging"""
+    import base64
+    import cincoconfig as cc
+    from cincoconfig.encryption import KeyFile, SecureValue
+    tmp = ctx.tmpdir()
+
+    def opens(keypath, stored):
+        try:
+            with KeyFile(keypath) as kf:
+                return kf.decrypt(SecureValue(stored["method"], base64.b64decode(stored["ciphertext"]))).decode("utf-8", "surrogateescape")
+        except Exception as e:  # noqa
+            return "raised %s" % type(e).__name__
+    secrets = []
+    for n in range(1, 49):
+        pad = 16 - n % 16
+        secrets.append(("x" * (n - 1) + chr(pad)) if pad < 16 else ("x" * (n - 1) + "\x10"))
+    secrets += ["ND KEY-----\n"[-6:].rjust(6, "-"), "abcde\n", "secret\t", "ab\r", "-----END KEY-----\n", " ", "\t\n", "\u00a0\u3000", "  ", "\n", "x" * 15 + "\x01", "\x10" * 16, "\x01", "\x0f" * 15]
+    for method in ("aes", "xor"):
+        kp = os.path.join(tmp, "edge-%s.key" % method)
+        s = cc.Schema()
+        s.separator = cc.SecureField(method=method)
+        s.a.b.c.indent = cc.SecureField(method=method)
+        item = cc.Schema()
+        item.pin = cc.SecureField(method=method)
+        s.items = cc.ListField(item, default=lambda: [])
+        for i, secret in enumerate(secrets):
+            case = {"stream": "edge-secrets", "method": method, "secret": repr(secret)[:40], "length": len(secret)}
+            res.case(stable(case), kind="edge-secrets")
+            cfg = s(key_filename=kp)
+            try:
+                cfg.separator = secret
+                cfg.a.b.c.indent = secret
+                cfg.items = [{"pin": secret}]
+                tree = cfg.to_tree()
+            except Exception as e:  # noqa
+                res.violate("C03:edge-secret", "a non-empty secret at an edge of the padding could not be stored: %s" % type(e).__name__, dict(case, error=str(e)[:80]))
+                continue
+            bad = []
+            for label, stored in (("separator", tree["separator"]), ("a.b.c.indent", tree["a"]["b"]["c"]["indent"]), ("items[0].pin", tree["items"][0]["pin"])):
+                if not (isinstance(stored, dict) and set(stored) == {"method", "ciphertext"}):
+                    bad.append([label, "not stored as method + ciphertext", repr(stored)[:40]])
+                elif opens(kp, stored) != secret:
+                    bad.append([label, "does not open to the secret", repr(opens(kp, stored))[:40]])
+            if i % 4 == 0 or len(secret) < 8:
+                for fmt in ("json", "yaml"):
+                    try:
+                        back = s(key_filename=kp)
+                        back.loads(cfg.dumps(format=fmt), format=fmt)
+                        got = (back.separator, back.a.b.c.indent, back.items[0].pin)
+                    except Exception as e:  # noqa
+                        got = "raised %s" % type(e).__name__
+                    if got != (secret, secret, secret):
+                        bad.append([fmt, "reload differs", repr(got)[:60]])
+            if bad:
+                res.violate("C03:edge-secret", "a non-empty secret at an edge (ending in the padding byte, made of blanks only) is not stored encrypted / does not come back exactly",
+                            dict(case, problems=bad[:3]))
+    peer = cc.Schema()
+    peer.host = cc.StringField(default="h")
+    peer.token = cc.SecureField(method="aes")
+    for typed in (False, True):
+        P_ = cc.make_type(peer, "C03EdgePeer") if typed else peer
+        s = cc.Schema()
+        s.cluster.peers = cc.ListField(P_, default=lambda: [])
+        for route in ("assign", "+=", "extend", "assign list()"):
+            kp_prod, kp_stag = os.path.join(tmp, "prod-%s-%s.key" % (typed, route[:3])), os.path.join(tmp, "stag-%s-%s.key" % (typed, route[:3]))
+            for k in (kp_prod, kp_stag):
+                if os.path.exists(k):
+                    os.remove(k)
+            prod, stag = s(key_filename=kp_prod), s(key_filename=kp_stag)
+            stag.cluster.peers = [{"host": "a", "token": "token-a"}, {"host": "b", "token": "token-b"}]
+            case = {"stream": "foreign-list", "config_type": typed, "route": route}
+            res.case(stable(case), kind="foreign-list")
+            try:
+                if route == "assign":
+                    prod.cluster.peers = stag.cluster.peers
+                elif route == "+=":
+                    prod.cluster.peers += stag.cluster.peers
+                elif route == "extend":
+                    prod.cluster.peers.extend(stag.cluster.peers)
+                else:
+                    prod.cluster.peers = list(stag.cluster.peers)
+                tree = prod.to_tree()
+                got = [opens(kp_prod, p["token"]) for p in tree["cluster"]["peers"]]
+            except Exception as e:  # noqa
+                got = "raised %s: %s" % (type(e).__name__, str(e)[:60])
+            if got != ["token-a", "token-b"]:
+                res.violate("C03:wrong-key-file:foreign-list", "secrets of list items taken over from another configuration's list are not sealed with the key file of the "
+                            "configuration that now holds and saves them", dict(case, opened_with_own_key_file=repr(got)))
+
 def run(ctx, n_quick=150, n_thorough=4000):
     res = Result()
+    guard(res, "C03", edge_secrets_and_foreign_lists_stream, ctx, res)
     guard(res, "C03", falsy_parent_stream, ctx, res)
     guard(res, "C03", retries_ctor_and_env_stream, ctx, res)
     guard(res, "C03", rehome_stream, ctx, res, ctx.n(30, 800))
